@@ -108,7 +108,7 @@ Lemma tex_tokens_ok : wf_text_tokens tex_ctx.
 Proof.
   split.
   - unfold tex_ctx. repeat (tk_cbn; tk_step).
-  - unfold canon_labels. vm_compute. discriminate.
+  - unfold canon_labels. vm_compute. reflexivity.
 Qed.
 
 Lemma tex_stable : text_stable tex_ctx.
@@ -120,3 +120,53 @@ Proof. split; [exact tex_chars_ok | split; [exact tex_tokens_ok | exact tex_stab
 (* the labels of the example are numbered 1, 2 in order of first occurrence; [tnorm] changes it *)
 Example tex_tnorm_differs : map tnorm_module tex_ctx <> tex_ctx.
 Proof. vm_compute. intros H. inversion H. Qed.
+
+(* ---------------------------------------------------------------- labels numbered arbitrarily *)
+
+(* two modules whose labels are not in first-occurrence order and overlap (7 and 3 in both): the way
+   separately produced modules look after they were read into one context *)
+Definition tex_func2 (nm : string) : func :=
+  mkFunc (str nm) false [TI64] [] [(TI64, str "r")] []
+    [ IInsn MOV [OReg (str "r"); OInt 0];
+      IInsn BT [OLabel 7; OReg (str "r")];
+      ILabel 3;
+      IInsn JMP [OLabel 3];
+      ILabel 7;
+      IInsn RET [OReg (str "r")] ].
+
+Definition tex_ctx2 : list module :=
+  [ mkModule (str "ma") [ ItLref (Some (str "lq")) 3 (Some 7) 0; ItFunc (tex_func2 "fa") ];
+    mkModule (str "mb") [ ItFunc (tex_func2 "fb"); ItLref None 7 None 8 ] ].
+
+Definition tex_func2r (nm : string) (a b : Z) : func :=
+  mkFunc (str nm) false [TI64] [] [(TI64, str "r")] []
+    [ IInsn MOV [OReg (str "r"); OInt 0];
+      IInsn BT [OLabel a; OReg (str "r")];
+      ILabel b;
+      IInsn JMP [OLabel b];
+      ILabel a;
+      IInsn RET [OReg (str "r")] ].
+
+(* what the scanner makes of it: 3 -> 1, 7 -> 2 in the first module (the lref comes first), 7 -> 3, 3 -> 4 in the second *)
+Definition tex_ctx2r : list module :=
+  [ mkModule (str "ma") [ ItLref (Some (str "lq")) 1 (Some 2) 0; ItFunc (tex_func2r "fa" 2 1) ];
+    mkModule (str "mb") [ ItFunc (tex_func2r "fb" 3 4); ItLref None 3 None 8 ] ].
+
+Example tex2_relabel : relabel_ctx tex_ctx2 = Some tex_ctx2r /\ tex_ctx2r <> tex_ctx2 /\ relabel_ctx tex_ctx2r = Some tex_ctx2r.
+Proof. split; [vm_compute; reflexivity|]. split; [intros H; inversion H | vm_compute; reflexivity]. Qed.
+
+Ltac wf_cbn2 :=
+  cbv beta iota delta [mod_name mod_items citem_ok citem_ok_simple cfunc_ok cmodule_ok f_name f_res f_args f_locals f_globals f_insns f_vararg
+       map app cinsn_ok cop_ok' cop_ok cmem_ok cmem_ok' m_type m_disp m_base m_index m_scale m_alias m_nonalias ident_opt
+       csigel_ok clocal_ok cglobal_ok cel_ok v_type v_name v_size fst snd tex_ctx2 tex_func2].
+
+Lemma tex2_chars_ok : cctx_ok parseF parseD parseLD fmtF fmtD fmtLD tex_ctx2.
+Proof. unfold cctx_ok, tex_ctx2, tex_func2. repeat (wf_cbn2; wf_step). Qed.
+
+Ltac tk_cbn2 :=
+  cbv beta iota delta [mod_name mod_items tmodule_ok titems_ok titem_ok tnorm_item func_ok sig_ok sig_els insn_ok tops_ok top_ok
+       f_name f_res f_args f_locals f_globals f_insns f_vararg map app sigel_ok opt_reg_ok
+       m_type m_disp m_base m_index m_scale m_alias m_nonalias v_type v_name v_size fst snd tex_ctx2 tex_func2].
+
+Lemma tex2_tokens_ok : Forall tmodule_ok tex_ctx2.
+Proof. unfold tex_ctx2. repeat (tk_cbn2; tk_step). Qed.
